@@ -292,7 +292,7 @@ func (s *SpecValidator) validateSchemaPropertyNames(nm string, sch spec.Schema, 
 			}
 			dups = append(dups, dup...)
 		}
-		return dups, res
+		// no return here: properties declared next to allOf are declared by this schema too
 	}
 
 	for k := range schc.Properties {
